@@ -64,12 +64,6 @@ Definition sx_obj_ws (cname wst : str) (qkeys : list str) (o : obj) : sx :=
 
 Definition xlgen : str := [88; 108; 71; 101; 110].
 
-(* a reading of several object classes and the caller's edits, as a session *)
-Definition multi_ops (rows : list (list cval)) (objs : list (str * (list rule * nat))) (stop : str)
-           (ladder : bool) (qkeys : list str) (muts : list (nat * nat * option str * str)) : list op :=
-  OReadM (mkMConfig (map snd objs) stop ladder) rows qkeys
-  :: map (fun m => match m with (j, a, inner, mk) => OMut 0 j a inner mk end) muts.
-
 (* the objects of a multi reading, row by row, each with the name of its class *)
 Fixpoint with_names {A} (names : list str) (cur : list str) (items : list A) (fuel : nat) : list (str * A) :=
   match items, fuel with
@@ -93,12 +87,13 @@ Definition run_full (c : case) : sx :=
       SL [ SL (map (sx_option (sx_obj_ws xlgen wst qkeys)) items);
            sx_option (fun e => SZ (err_code e)) e ]
   | ReadM wst rows objs stop ladder qkeys muts =>
-      let n := length (fst (read_table_m (mkMConfig (map snd objs) stop ladder) rows)) in
+      (* = (number of tuples, run_session (multi_ops ...)): LemmasSession.multi_final_spec *)
+      let (n, st) := multi_final (mkMConfig (map snd objs) stop ladder) rows qkeys muts in
       SL (SZ (Z.of_nat n) ::
           map (fun rd => SL [ SL (map (fun p => sx_option (sx_obj_ws (fst p) wst qkeys) (snd p))
                                       (with_names (map fst objs) [] (rd_items rd) (length (rd_items rd))));
                               sx_option (fun e => SZ (err_code e)) (rd_err rd) ])
-              (run_session (multi_ops rows objs stop ladder qkeys muts)))
+              st)
   | Session ops =>
       SL (map (fun rd => SL [ SL (map (sx_option (sx_obj (rd_qkeys rd))) (rd_items rd));
                               sx_option (fun e => SZ (err_code e)) (rd_err rd) ])
@@ -107,20 +102,22 @@ Definition run_full (c : case) : sx :=
 
 (* The read-back of a vm_compute result is not tail recursive in coqc, so the text printed
    per shard has to stay small: every yielded object is reduced to a 61-bit polynomial digest
-   of its full observation [sx_obj]; harness/props/c18.py computes the same digest of what
-   the implementation did.  (0) stands for a row that yielded None. *)
-Definition hP : Z := 2305843009213693951.
+   of its full observation [sx_obj] / [sx_obj_ws]; harness/props/c18.py computes the same digest of
+   what the implementation did.  (0) stands for a row that yielded None.
+   The digest is h -> (h * hB + x + c) mod 2^61, the reduction done with Z.land: Z.modulo by a 61-bit
+   prime made the digest -- not the model -- cost 95% of the evaluation time (0.5 ms per number). *)
+Definition hP : Z := 2305843009213693951.         (* 2^61 - 1, used as a bit mask *)
 Definition hB : Z := 1000003.
 Fixpoint hash_sx (s : sx) (h : Z) {struct s} : Z :=
   match s with
-  | SZ z => ((h * hB + (z mod hP) + 7) mod hP)%Z
+  | SZ z => Z.land (h * hB + z + 7) hP
   | SL l =>
       let fix go (l : list sx) (h : Z) : Z :=
         match l with
         | [] => h
         | x :: r => go r (hash_sx x h)
         end in
-      ((go l ((h * hB + 3) mod hP) * hB + 5) mod hP)%Z
+      Z.land (go l (Z.land (h * hB + 3) hP) * hB + 5) hP
   end.
 
 Definition run (c : case) : sx :=
@@ -135,7 +132,8 @@ Definition run (c : case) : sx :=
                               end) items);
            sx_option (fun e => SZ (err_code e)) e ]
   | ReadM wst rows objs stop ladder qkeys muts =>
-      let n := length (fst (read_table_m (mkMConfig (map snd objs) stop ladder) rows)) in
+      (* = (number of tuples, run_session (multi_ops ...)): LemmasSession.multi_final_spec *)
+      let (n, st) := multi_final (mkMConfig (map snd objs) stop ladder) rows qkeys muts in
       SL (SZ (Z.of_nat n) ::
           map (fun rd => SL [ SL (map (fun p => match snd p with
                                                 | None => SL [SZ 0]
@@ -143,7 +141,7 @@ Definition run (c : case) : sx :=
                                                 end)
                                       (with_names (map fst objs) [] (rd_items rd) (length (rd_items rd))));
                               sx_option (fun e => SZ (err_code e)) (rd_err rd) ])
-              (run_session (multi_ops rows objs stop ladder qkeys muts)))
+              st)
   | Session ops =>
       SL (map (fun rd => SL [ SL (map (fun it => match it with
                                                  | None => SL [SZ 0]
